@@ -741,6 +741,82 @@ def CEv.toEv (sx bx : Bool) : CEv → Ev
   | .ev (.up _ cb) => .raw ("u" ++ cb.render)
   | .ev (.low e) => e.toEv sx bx
 
+/-- the generation line of an event that hands a request to user code (see `SEv.sight` below), then the event -/
+def CEv.toEvs (sx bx : Bool) (sight : SEv → Option String) : CEv → List Ev
+  | .view c v => [CEv.toEv sx bx (.view c v)]
+  | .ev e => (match sight e with | some l => [.raw l] | none => []) ++ [CEv.toEv sx bx (.ev e)]
+
+/-! ## which copy of the request goes where
+
+`Fallback::call` (lib.rs:274-285) takes ONE copy of the request it is given (`req.clone()`, before the inner
+call) and then has two values: the request itself, which is MOVED into the inner call, and the copy, which it
+keeps for the strategies that work on the request (`from_request_error`, the backup service). For a request type
+whose `Clone` is observable (a copy is marked as a copy: an attempt counter, a replay flag, a one-shot body only
+the original carries) the two are different values. `Sub` is a request together with its generation (how many
+times it was copied); the property's "for that request" / "passes through unchanged" fixes the primary side:
+the wrapped service gets THE request the caller submitted, generation included. That the strategies get exactly
+one copy further (and not, say, a copy of a copy) is the reading of lib.rs:279. -/
+
+/-- a request value: the request and how many times it has been copied (`clone()` bumps it) -/
+structure Sub where
+  rq : Request
+  gen : Nat
+deriving DecidableEq, Repr, Inhabited
+
+def Sub.clone (r : Sub) : Sub := { r with gen := r.gen + 1 }
+
+/-- what `Fallback::call` hands out -/
+structure Handed where
+  /-- moved into the inner call -/
+  primary : Sub
+  /-- kept for `from_request_error` / the backup service -/
+  strategy : Sub
+deriving DecidableEq, Repr, Inhabited
+
+/-- lib.rs:279-285: `let req_clone = req.clone(); … service.call(req)` -/
+def handOut (r : Sub) : Handed := ⟨r, r.clone⟩
+
+/-- who is handed a request -/
+inductive Who
+  | inner | backup | fromReqErr | upFromReqErr
+deriving DecidableEq, Repr, Inhabited
+
+/-- "`who`, working for caller `c`, was handed `got`" -/
+structure Sight where
+  who : Who
+  c : Nat
+  got : Sub
+deriving DecidableEq, Repr, Inhabited
+
+/-- Which request value an event of the lower instance's log hands to user code, `g c` being the generation of
+the request caller `c` submitted to this instance: the inner call gets the primary side, the backup call and
+the `from_request_error` function the strategy side. -/
+def FEv.sight (g : Nat → Nat) : FEv → Option Sight
+  | .innerCall c _ rq => some ⟨.inner, c, (handOut ⟨rq, g c⟩).primary⟩
+  | .backupCall c _ rq => some ⟨.backup, c, (handOut ⟨rq, g c⟩).strategy⟩
+  | .callback c (.fromReqErr rq _) => some ⟨.fromReqErr, c, (handOut ⟨rq, g c⟩).strategy⟩
+  | _ => none
+
+/-- The same for the stack's log. The upper layer is a second instance of the same code: it is given the caller's
+request, hands its primary side down — so what the lower instance is submitted is `(handOut r).primary = r`, the
+same generation `g c` — and its own `from_request_error` function gets its strategy side. -/
+def SEv.sight (g : Nat → Nat) : SEv → Option Sight
+  | .low e => e.sight g
+  | .up c (.fromReqErr rq _) => some ⟨.upFromReqErr, c, (handOut ⟨rq, g c⟩).strategy⟩
+  | .up _ _ => none
+
+def Who.render : Who → String
+  | .inner => "inner"
+  | .backup => "backup"
+  | .fromReqErr => "from_request_error"
+  | .upFromReqErr => "ufrom_request_error"
+
+/-- everything that is handed a request logs the generation it got, right before its own line -/
+def Sight.render (s : Sight) : String := s!"reqgen {s.who.render} {s.c} {s.got.gen}"
+
+/-- the generation of the request caller `c` submitted (`gen=` of its `arrive`; 0 = an original) -/
+def genOf (gens : List (Nat × Nat)) (c : Nat) : Nat := (lookup gens c).getD 0
+
 /-- `probe strategy c= tag= kind= v=`: the caller builds the `FallbackStrategy` value of the header's
 strategy by hand (same test functions, value-function counter 0, a backup closure that echoes the
 request), CLONES it (lib.rs:207) and applies the clone to the sample request and error -/
@@ -767,6 +843,8 @@ structure MS where
   cfg : Cfg
   up : Option Cfg
   posts : List (Nat × List PostStep) := []
+  /-- the generation of each caller's submitted request (`gen=` of its `arrive`) -/
+  gens : List (Nat × Nat) := []
   s : State := init
   /-- accumulators of `liftLog` over the log so far: the stack's log is produced stretch by stretch
   (`TR.Fallback.liftLog_append`) -/
@@ -776,7 +854,8 @@ structure MS where
 def MS.observe (m : MS) (new : List FEv) : List Ev :=
   (callerLog m.posts (match m.up with
     | none => new.map SEv.low
-    | some u => liftLog u m.acc.1 m.acc.2 new)).map (CEv.toEv m.sx m.bx)
+    | some u => liftLog u m.acc.1 m.acc.2 new)).flatMap
+      (CEv.toEvs m.sx m.bx (fun e => (e.sight (genOf m.gens)).map Sight.render))
 
 def parseUpper (kv : Kv) : Option Cfg :=
   match kv.get "upper" with
@@ -803,9 +882,13 @@ def machine : Machine where
           | .arrive c _ _, _ :: _ :: rest =>
               if m.s.svcGone || known m.s c then m.posts else (c, parsePost ((parseKv rest).str "post" "")) :: m.posts
           | _, _ => m.posts
+        let gens := match op, ws with
+          | .arrive c _ _, _ :: _ :: rest =>
+              if m.s.svcGone || known m.s c then m.gens else (c, (parseKv rest).nat "gen" 0) :: m.gens
+          | _, _ => m.gens
         let s' := stepS m.cfg m.s op
         let new := s'.log.drop m.s.log.length
-        let m1 := { m with posts := posts }
+        let m1 := { m with posts := posts, gens := gens }
         ({ m1 with s := s', acc := match m.up with | some u => liftAcc u m.acc.1 m.acc.2 new | none => m.acc },
          m1.observe new ++ (if refused m.s op then [.raw "noop"] else []))
     | none => (m, [])
